@@ -156,6 +156,10 @@ func driveDispatch(c *hx.Ctx) error {
 	d.rnd.Shuffle(len(random), func(i, j int) { random[i], random[j] = random[j], random[i] })
 	chosen = append(chosen, random[:c.Pick(12, len(random))]...)
 	sort.Ints(chosen)
+	gapRandom := map[int]bool{}
+	for _, m := range random[:4] {
+		gapRandom[m] = true
+	}
 
 	for _, mask := range chosen {
 		// without the Configure hook
@@ -172,6 +176,14 @@ func driveDispatch(c *hx.Ctx) error {
 			}
 			if err := d.session(pt, cs, full); err != nil {
 				return err
+			}
+		}
+		// events sent by the runtime end as soon as Configure is answered, while Start has not returned yet
+		if mask != 0 && (mask == 8191 || mask == 8191&^(1<<1|1<<5|1<<7|1<<8) || pluginKind(byKey, mask) == "single" || gapRandom[mask]) {
+			for _, hook := range []bool{false, true} {
+				if err := d.gapSession(byKey[fmt.Sprintf("%d/%v", mask, hook)]); err != nil {
+					return err
+				}
 			}
 		}
 		// one stub object through several sessions
@@ -197,7 +209,11 @@ func driveDispatch(c *hx.Ctx) error {
 		"receive exactly that list, element by element, and the plugin's own slice must still read the same after the call; pod, container and both " +
 		"resource sets carry distinct tokens, all 13 methods are scripted with distinct adjustment / update / error tokens; recorded: the methods " +
 		"that ran with the tokens they saw, and the reply or error the runtime end got. non-trivial cfg case: the hook returned a mask (clamping " +
-		"exercised); non-trivial disp case: a handler ran. sess cases (restart stream): ONE stub.Stub object is started two or three times " +
+		"exercised); non-trivial disp case: a handler ran. gap sessions (all-handlers, StateChange-only, every single-handler and 4 seeded types, with " +
+		"and without hook): the runtime end sends every event and request as soon as Configure is answered, while the stub's Start is still between " +
+		"receiving the configuration result and marking itself started (held there for 150 ms by a logrus hook on its 'Started plugin' line): every " +
+		"acknowledged event must have reached its handler, same comparison as every other delivery. UpdatePodSandbox is also delivered with both, " +
+		"only one, and neither of the two resource sections present, to pods that carry resources and overhead of their own. sess cases (restart stream): ONE stub.Stub object is started two or three times " +
 		"(Stop, or a rejected configuration, in between; a few deliveries in every configured session) with a different hook answer per session: " +
 		"subset A then 0; subset A then an implemented subset B disjoint from A; exact, A, 0; hook failure, 0, B; superset (rejected) then exact; " +
 		"A, A plus an unimplemented event (rejected), B; for single-handler types exact/0 and unimplemented/0; every session is compared with " +
@@ -427,6 +443,15 @@ func (d *dispDriver) messages(full bool) []msgSpec {
 			continue
 		}
 		out = append(out, msgSpec{RPC: h.rpc, Event: int32(h.event), Fields: fieldsOf(h.args, drop)})
+	}
+	// UpdatePodSandbox with each of {both, resources only, overhead only, neither} present
+	for _, drop := range [][]string{nil, {"OverheadLinuxResources"}, {"LinuxResources"}, {"OverheadLinuxResources", "LinuxResources"}} {
+		h := handlerDefs[1]
+		f := fieldsOf(h.args, "")
+		for _, k := range drop {
+			delete(f, k)
+		}
+		out = append(out, msgSpec{RPC: h.rpc, Event: int32(h.event), Fields: f})
 	}
 	// update lists that name the request's own container: alone, among others, repeated; and nil, one, two others
 	for _, h := range handlerDefs {
@@ -658,6 +683,78 @@ func (d *dispDriver) corpus(byKey map[string]pluginType) error {
 				return err
 			}
 		}
+	}
+	return nil
+}
+
+func pluginKind(byKey map[string]pluginType, mask int) string {
+	return byKey[fmt.Sprintf("%d/false", mask)].kind
+}
+
+// gapSession: the runtime end delivers every event / request right after the Configure answer, i.e. while the
+// stub's Start has the result but has not yet marked the stub started (startDelayMs holds it there).
+func (d *dispDriver) gapSession(pt pluginType) error {
+	if pt.mk == nil {
+		return fmt.Errorf("no generated plugin type for this handler subset")
+	}
+	c := d.c
+	co := &core{}
+	d.n++
+	st, err := stub.New(pt.mk(co), stub.WithPluginName("disp"), stub.WithPluginIdx("00"),
+		stub.WithSocketPath(d.rt.sock), stub.WithOnClose(func() {}))
+	if err != nil {
+		return fmt.Errorf("plugin %d: stub.New: %v", pt.mask, err)
+	}
+	var call *call
+	var cbErr error
+	inFlight := false
+	sc := healthyScript()
+	sc.OnConfigured = func(s *session) {
+		k := 0
+		for _, h := range handlerDefs {
+			f := map[string]string{}
+			for _, a := range h.args {
+				k++
+				f[a] = fmt.Sprintf("g%d.%d", d.n, k)
+			}
+			if h.rpc == "" {
+				k++
+				f["Pod"], f["Container"] = fmt.Sprintf("gp%d.%d", d.n, k), fmt.Sprintf("gc%d.%d", d.n, k)
+			}
+			if err := d.deliver(pt, co, s, msgSpec{RPC: h.rpc, Event: int32(h.event), Fields: f}); err != nil && cbErr == nil {
+				cbErr = err
+			}
+		}
+		inFlight = call != nil && !call.returned()
+	}
+	d.rt.setScript(sc)
+	defer d.rt.setScript(healthyScript())
+	startDelayMs.Store(150)
+	defer startDelayMs.Store(0)
+	call = launch(func() error { return st.Start(context.Background()) })
+	var s *session
+	select {
+	case s = <-d.rt.accepted:
+	case <-time.After(10 * time.Second):
+		return fmt.Errorf("plugin %d (gap session): no connection reached the scripted runtime", pt.mask)
+	}
+	if !call.wait(20 * time.Second) {
+		return fmt.Errorf("plugin %d (gap session): Start did not return", pt.mask)
+	}
+	if call.err != nil {
+		return fmt.Errorf("plugin %d (gap session): Start: %v", pt.mask, call.err)
+	}
+	defer st.Stop()
+	if !waitC(s.synchronized, 20*time.Second) {
+		return fmt.Errorf("plugin %d (gap session): the runtime end did not get through Configure and Synchronize", pt.mask)
+	}
+	if cbErr != nil {
+		return fmt.Errorf("plugin %d (gap session): %v", pt.mask, cbErr)
+	}
+	if inFlight {
+		c.Count("gap-sessions/events-sent-while-Start-in-flight", 1)
+	} else {
+		c.Count("gap-sessions/Start-had-returned-already", 1)
 	}
 	return nil
 }
